@@ -158,6 +158,23 @@ From Omega Require Import L1Circuits.PyStr L2Compile.Thread L2Compile.ThreadProo
   L2Compile.Leaf L2Compile.LeafProofs.
 From OmegaGP Require Import BitvectorLeafBridge BitvectorFlatBridge.
 
+(* the variable names that occur in a term / a formula *)
+Fixpoint qnames (e : qexp) : list string :=
+  match e with
+  | QNum _ => []
+  | QVar n => [n]
+  | QPrime _ a => qnames a
+  | QArith _ _ a b => qnames a ++ qnames b
+  end.
+Fixpoint bnames (e : bexp) : list string :=
+  match e with
+  | BConst _ => []
+  | BVar n => [n]
+  | BCmp _ l r => qnames l ++ qnames r
+  | BNot _ a => bnames a
+  | BBin _ a b => bnames a ++ bnames b
+  end.
+
 Section FlattenCorrect.
 Variable defs : Type.
 Variable defs_mem : defs -> string -> bool.
@@ -313,13 +330,28 @@ Qed.
 Definition no_defs (kw : kwargs defs) : Prop :=
   forall n, nodef defs defs_mem kw n = true.
 
+(* the names in l have no definition in the dictionary passed as defs=...
+   (the dictionary may define other operators: Var.flatten only tests the
+   name it flattens) *)
+Definition nodef_on (kw : kwargs defs) (l : list string) : Prop :=
+  forall n, In n l -> nodef defs defs_mem kw n = true.
+
+Lemma no_defs_on : forall kw l, no_defs kw -> nodef_on kw l.
+Proof. intros kw l H n _. apply H. Qed.
+
+Lemma nodef_on_prime : forall kw l, nodef_on kw l -> nodef_on (kw_set_prime kw) l.
+Proof. intros kw l H n I. exact (H n I). Qed.
+
+Lemma nodef_on_app : forall kw a b, nodef_on kw (a ++ b) -> nodef_on kw a /\ nodef_on kw b.
+Proof. intros kw a b H. split; intros n I; apply H, in_or_app; auto. Qed.
+
 Lemma no_defs_none : forall kw, k_defs kw = None -> no_defs kw.
 Proof. intros kw H n. unfold nodef. now rewrite H. Qed.
 
 Lemma no_defs_prime : forall kw, no_defs kw -> no_defs (kw_set_prime kw).
 Proof. intros kw H n. exact (H n). Qed.
 
-Lemma q_anode_leaves : forall e kw a, k_t kw = Some t -> no_defs kw ->
+Lemma q_anode_leaves : forall e kw a, k_t kw = Some t -> nodef_on kw (qnames e) ->
   q_anode var_id t (py_truth (k_prime kw)) e = Some a -> lok a kw.
 Proof.
   induction e as [v|n|op e IH|o op e1 IH1 e2 IH2]; intros kw a Ht Hd H; cbn [q_anode] in H.
@@ -327,18 +359,19 @@ Proof.
     now apply leaf_num.
   - destruct (d_var_flatten var_id t n (py_truth (k_prime kw))) as [[b|bits|f|p]|] eqn:E;
       try discriminate. injection H as <-.
-    apply (leaf_var _ _ _ _ _ n t bits kw Ht); [apply Hd|exact E].
+    apply (leaf_var _ _ _ _ _ n t bits kw Ht); [apply Hd; cbn [qnames]; now left|exact E].
   - destruct (String.eqb op "X" || String.eqb op "'")%bool eqn:O; [|discriminate].
     destruct (q_anode var_id t true e) as [a'|] eqn:E; [|discriminate]. injection H as <-.
     cbn [leaves_ok]. split.
     + apply orb_prop in O. destruct O as [O|O]; apply String.eqb_eq in O; auto.
-    + apply IH; [exact Ht|now apply no_defs_prime|exact E].
+    + apply IH; [exact Ht|now apply nodef_on_prime|exact E].
   - destruct (aop_of_string op) as [o'|] eqn:O; [|discriminate].
     destruct (q_anode var_id t (py_truth (k_prime kw)) e1) as [a1|] eqn:E1; [|discriminate].
     destruct (q_anode var_id t (py_truth (k_prime kw)) e2) as [a2|] eqn:E2; [|discriminate].
     assert (o' = o) by (destruct o, o'; try discriminate; reflexivity). subst o'.
     match type of H with (if ?c then _ else _) = _ => destruct c; [|discriminate] end.
-    injection H as <-. cbn [leaves_ok]. repeat split; auto.
+    injection H as <-. cbn [leaves_ok]. cbn [qnames] in Hd.
+    destruct (nodef_on_app _ _ _ Hd) as [H1 H2]. repeat split; auto.
 Qed.
 
 Lemma nonempty_of_len : forall A (l : list A), (1 <= length l)%nat -> l <> [].
@@ -383,7 +416,7 @@ Proof.
 Qed.
 
 Theorem translated_flatten_end_to_end : forall op l r la ra fuel kw res st vl vr,
-  k_t kw = Some t -> no_defs kw -> encodes ->
+  k_t kw = Some t -> nodef_on kw (qnames l ++ qnames r) -> encodes ->
   q_anode var_id t (py_truth (k_prime kw)) l = Some la ->
   q_anode var_id t (py_truth (k_prime kw)) r = Some ra ->
   qval env (py_truth (k_prime kw)) l = Some vl ->
@@ -395,7 +428,8 @@ Proof.
   intros op l r la ra fuel kw res st vl vr Ht Hd Enc Al Ar Vl Vr H.
   rewrite <- (q_anode_node _ _ _ Al), <- (q_anode_node _ _ _ Ar) in H.
   destruct (translated_comparator_flatten_correct op la ra fuel kw res st
-              (q_anode_leaves _ _ _ Ht Hd Al) (q_anode_leaves _ _ _ Ht Hd Ar)
+              (q_anode_leaves _ _ _ Ht (proj1 (nodef_on_app _ _ _ Hd)) Al)
+              (q_anode_leaves _ _ _ Ht (proj2 (nodef_on_app _ _ _ Hd)) Ar)
               (q_anode_wf _ _ _ Al) (q_anode_wf _ _ _ Ar) H) as (o & buf & Ho & -> & -> & B).
   exists o, buf. repeat split; auto.
   now rewrite (q_anode_value Enc _ _ _ _ Al Vl), (q_anode_value Enc _ _ _ _ Ar Vr) in B.
